@@ -1,14 +1,19 @@
 import FiberModel.DriverUtil
-import FiberModel.C08.Spec
+import FiberModel.C08.Known
 /-
 Driver for C08. Case fields (after the id):   tree  req  mode  err  |  outcomes
 (formats: see harness/cmd/c08/main.go).
 
-The error funnel's input — the error the chain returned — is read from the observation (`chain=`,
-recorded by the outermost middleware); routing itself is C01's. modelObs = the single outcome the
-model's funnel produces for that chain result; implObs = the set of distinct outcomes the real code
+The error funnel's input — the error the chain returned, or what fasthttp handed to the server's
+ErrorHandler together with the path the broken request's context carries — is read from the
+observation (`chain=`, recorded by the outermost middleware; `srv=`/`path=`, recorded by a wrapper
+around `app.Server().ErrorHandler`); routing itself is C01's. modelObs = the single outcome the
+model's funnel produces for that input; implObs = the set of distinct outcomes the real code
 produced over all evaluations of the case (so any order dependence is an M=DIFF *and* an S=FAIL).
-Domain (rejected otherwise): literal lower-case prefixes, pairwise different appList keys.
+Domain (rejected otherwise): prefixes from letters, digits, `/ - _ .` and whole-segment parameters
+`:name`; appList keys pairwise different as the router tells mounts apart (`normKey`).
+K=K1 exactly when the case lies in `Known.K1` (the designated app sits under a parameterised prefix
+the path does not spell out) and the failing clause is the scope clause.
 -/
 open B DriverUtil C04 C08
 
@@ -23,6 +28,15 @@ def parseOwn (s : String) : Except String (Option Own) :=
       else throw "outside-domain: own"
     | none => throw "outside-domain: own"
 
+def parseGroup (x : String) : Except String Bytes :=
+  if x == "_" then .ok []
+  else match fromHex x with
+    | some y => if y.isEmpty then .error "outside-domain: group prefix" else .ok y
+    | none => .error "outside-domain: group prefix"
+
+def parseGroups (g : String) : Except String (List Bytes) :=
+  if g == "~" then .ok [] else (g.splitOn ".").mapM parseGroup
+
 partial def parseNodes (toks : List String) (depth : Nat) : Except String (List Node × List String) :=
   match toks with
   | [] => if depth == 0 then pure ([], []) else throw "outside-domain: missing E"
@@ -30,8 +44,7 @@ partial def parseNodes (toks : List String) (depth : Nat) : Except String (List 
     if t == "E" then (if depth == 0 then throw "outside-domain: unbalanced E" else pure ([], rest))
     else match t.splitOn ":" with
       | ["A", g, p, o, late] => do
-        let gp ← if g == "~" then pure none else match fromHex g with
-          | some x => pure (some x) | none => throw "outside-domain: group prefix"
+        let gp ← parseGroups g
         let some p := fromHex p | throw "outside-domain: prefix"
         let own ← parseOwn o
         if late != "0" && late != "1" then throw "outside-domain: late"
@@ -40,11 +53,20 @@ partial def parseNodes (toks : List String) (depth : Nat) : Except String (List 
         pure (Node.mk gp p own ch :: more, r')
       | _ => throw s!"outside-domain: token {t}"
 
-def literalByte (c : Nat) : Bool := isLower c || isDigit c || c == 47 || c == 45 || c == 95 || c == 46
+def plainByte (c : Nat) : Bool :=
+  isLower c || isUpper c || isDigit c || c == 47 || c == 45 || c == 95 || c == 46
+
+/-- a prefix of the spec's pattern language: plain bytes, and `:` only at the start of a segment,
+followed by a non-empty name -/
+def patternOk : Bool → Bytes → Bool
+  | _, [] => true
+  | atStart, c :: t =>
+    if c == 58 then atStart && (match t with | [] => false | d :: _ => d != 47 && plainByte d) && patternOk false t
+    else plainByte c && patternOk (c == 47) t
 
 mutual
 partial def nodeLiteral : Node → Bool
-  | .mk gp p _ ch => p.all literalByte && (match gp with | none => true | some g => g.all literalByte) && ch.all nodeLiteral
+  | .mk gps p _ ch => patternOk true p && gps.all (patternOk true) && ch.all nodeLiteral
 end
 
 def parseErr (s : String) : Option Err :=
@@ -53,17 +75,23 @@ def parseErr (s : String) : Option Err :=
   | ["P", m] => do let m ← fromHex m; pure (.plain m)
   | _ => none
 
-def parseSeen (s : String) : Option Seen := do
-  let kv := (s.splitOn ";").filterMap fun p => match p.splitOn "=" with
+def kvOf (s : String) : List (String × String) :=
+  (s.splitOn ";").filterMap fun p => match p.splitOn "=" with
     | [k, v] => some (k, v) | _ => none
-  let get (k : String) : Option String := (kv.find? (·.1 == k)).map (·.2)
-  let ch ← get "chain"
-  let calls ← get "calls"
+
+def parseCalls (calls : String) : Option (List (Nat × Nat)) :=
   let parseCall (c : String) : Option (Nat × Nat) :=
     match c.splitOn "x" with
     | [i, n] => do let i ← i.toNat?; let n ← n.toNat?; pure (i, n)
     | _ => none
-  let calls ← if calls == "-" then some [] else (calls.splitOn ".").mapM parseCall
+  if calls == "-" then some [] else (calls.splitOn ".").mapM parseCall
+
+/-- one evaluation of a chain mode -/
+def parseSeen (s : String) : Option Seen := do
+  let kv := kvOf s
+  let get (k : String) : Option String := (kv.find? (·.1 == k)).map (·.2)
+  let ch ← get "chain"
+  let calls ← parseCalls (← get "calls")
   if ch == "none" then
     pure ⟨none, calls, 0, []⟩
   else
@@ -72,57 +100,145 @@ def parseSeen (s : String) : Option Seen := do
     let body ← fromHex (← get "body")
     pure ⟨some e, calls, st, body⟩
 
+def parseSrvErr (s : String) : Option SrvErr :=
+  match s.splitOn ":" with
+  | [bits, m] => do
+    let m ← fromHex m
+    match bits.toList with
+    | [a, c, d, f, g] =>
+      if [a, c, d, f, g].all (fun x => x == '0' || x == '1') then
+        pure ⟨a == '1', c == '1', d == '1', f == '1', g == '1', m⟩
+      else none
+    | _ => none
+  | _ => none
+
+/-- one evaluation of a server mode: (what fasthttp handed over, the context's path, the rest) -/
+def parseSrvSeen (s : String) : Option (Option (SrvErr × Bytes) × Seen) := do
+  let kv := kvOf s
+  let get (k : String) : Option String := (kv.find? (·.1 == k)).map (·.2)
+  let sv ← get "srv"
+  let calls ← parseCalls (← get "calls")
+  if sv == "none" then
+    pure (none, ⟨none, calls, 0, []⟩)
+  else
+    let e ← parseSrvErr sv
+    let p ← fromHex (← get "path")
+    let st ← (← get "status").toNat?
+    let body ← fromHex (← get "body")
+    pure (some (e, p), ⟨some (specServerErr e), calls, st, body⟩)
+
 def renderErr : Err → String
   | .fiber c m => s!"E:{c}:{toHexField m}"
   | .plain m => s!"P:{toHexField m}"
 
+def renderCalls (o : Outcome) : String :=
+  let cs := customCalls o
+  if cs.isEmpty then "-" else ".".intercalate (cs.map fun (i, n) => s!"{i}x{n}")
+
 def renderOutcome (chain : Option Err) (o : Option Outcome) : String :=
   match chain, o with
-  | some e, some o =>
-    let cs := customCalls o
-    let c := if cs.isEmpty then "-" else ".".intercalate (cs.map fun (i, n) => s!"{i}x{n}")
-    s!"chain={renderErr e};calls={c};status={o.status};body={toHexField o.body}"
+  | some e, some o => s!"chain={renderErr e};calls={renderCalls o};status={o.status};body={toHexField o.body}"
   | _, _ => "chain=none;calls=-"
+
+def bit (x : Bool) : String := if x then "1" else "0"
+
+def renderSrvOutcome (e : Option (SrvErr × Bytes)) (o : Option Outcome) : String :=
+  match e, o with
+  | some (e, p), some o =>
+    s!"srv={bit e.smallBuffer}{bit e.opTimeout}{bit e.netError}{bit e.bodyTooLarge}{bit e.getOnly}:{toHexField e.msg};path={toHexField p};calls={renderCalls o};status={o.status};body={toHexField o.body}"
+  | _, _ => "srv=none;calls=-"
+
+structure Mode where
+  base : String
+  custom : Bool
+  cs : Bool
+  strict : Bool
+
+def parseMode (s : String) : Except String Mode := do
+  match s.splitOn "+" with
+  | [] => throw "outside-domain: mode"
+  | base :: fl =>
+    let isNum (x : String) : Bool := !x.isEmpty && x.all Char.isDigit
+    let okBase := ["mw", "chain", "srv"].contains base ||
+      ((base.startsWith "sub" || base.startsWith "net") && isNum ((base.drop 3).toString))
+    if !okBase then throw "outside-domain: mode"
+    if !(fl.all fun x => ["custom", "cs", "strict", "subcs"].contains x) then throw "outside-domain: mode flag"
+    if fl.eraseDups.length != fl.length then throw "outside-domain: mode flag twice"
+    let kind := if base.startsWith "sub" then "sub" else if base.startsWith "net" then "net" else base
+    pure ⟨kind, fl.contains "custom", fl.contains "cs", fl.contains "strict"⟩
 
 def handleCase (f : List String) : Except String Verdict := do
   match f with
-  | [id, tree, req, mode, _err, outcomes] =>
+  | [id, tree, req, mode, err, outcomes] =>
     let toks := tree.splitOn ","
     let rootOwn ← parseOwn (toks.headD "?")
     let (nodes, rest) ← parseNodes toks.tail 0
     if !rest.isEmpty then throw "outside-domain: trailing tokens"
-    if !(nodes.all nodeLiteral) then throw "outside-domain: non-literal prefix"
-    let path ← match req.splitOn ":" with
+    if !(nodes.all nodeLiteral) then throw "outside-domain: prefix outside the pattern language"
+    let reqPath ← match req.splitOn ":" with
       | [_, p] => match fromHex p with
         | some p => pure p | none => throw "outside-domain: path"
       | _ => throw "outside-domain: req"
-    if path.head? != some 47 || !(path.all literalByte) then throw "outside-domain: path"
-    if !["mw", "chain", "mw+custom", "chain+custom"].contains mode then throw "outside-domain: mode"
+    if reqPath.head? != some 47 || (reqPath.drop 1).head? == some 47 ||
+        !(reqPath.all fun c => plainByte c || c == 58) then throw "outside-domain: path"
+    let md ← parseMode mode
+    let server := md.base == "srv" || md.base == "net"
+    if (err.startsWith "S:") != (md.base == "srv") then throw "outside-domain: err kind does not fit the mode"
+    let cfg : Cfg := ⟨md.cs, md.strict⟩
     let l := appList rootOwn nodes
-    let keys := l.map (·.pre)
-    if keys.eraseDups.length != keys.length then throw "outside-domain: two apps at the same appList key"
+    let keys := l.map fun m => normKey cfg m.pre
+    if keys.eraseDups.length != keys.length then throw "outside-domain: two apps at the same mount point"
     let outs := outcomes.splitOn "|"
     if outs.contains "panic" then
       return { id := id, modelObs := "no-panic", implObs := outcomes,
                spec := some "panic: the error funnel panicked", tags := [mode, "panic"] }
-    let seen := outs.filterMap parseSeen
-    if seen.length != outs.length then throw "outside-domain: unparsable outcome"
-    let chain := (seen.head?).bind (·.chain)
-    let modelObs := renderOutcome chain (funnel l rootOwn path chain)
-    let spec := specViolation l rootOwn path seen
-    let cands := candidates l path
-    let hpOnly := l.filter fun m => !m.pre.isEmpty && m.pre.isPrefixOf path && !contains m.pre path
-    let chosen := selectSpec l path
-    let tags := [mode] ++
-      (match chain with | none => ["no-error"] | some (.fiber c _) => [s!"fiber-{c}"] | some (.plain _) => ["plain-error"]) ++
+    -- the funnel's input, the model's outcome for it, the evaluations as the oracle sees them
+    let (path, modelObs, seen, inTag) ←
+      if server then do
+        let seen := outs.filterMap parseSrvSeen
+        if seen.length != outs.length then throw "outside-domain: unparsable outcome"
+        let first := (seen.head?).bind (·.1)
+        let path := match first with | some (_, p) => p | none => reqPath
+        if md.base == "srv" && path != reqPath then throw "outside-domain: context path differs from the request path"
+        let model := match first with
+          | some (e, p) => renderSrvOutcome first (serverFunnel cfg l rootOwn p e)
+          | none => renderSrvOutcome none none
+        let tag := match first with
+          | some (e, _) => (match mapServerErr e with | .fiber c _ => s!"srv-{c}" | .plain _ => "srv-plain")
+          | none => "srv-none"
+        pure (path, model, seen.map (·.2), tag)
+      else do
+        let seen := outs.filterMap parseSeen
+        if seen.length != outs.length then throw "outside-domain: unparsable outcome"
+        let chain := (seen.head?).bind (·.chain)
+        let tag := match chain with | none => "no-error" | some (.fiber c _) => s!"fiber-{c}" | some (.plain _) => "plain-error"
+        pure (reqPath, renderOutcome chain (funnel cfg l rootOwn reqPath chain), seen, tag)
+    let spec := specViolation cfg l rootOwn path seen
+    let inK1 := Known.K1 cfg l path
+    let known := match spec with
+      | some c => if inK1 && c.startsWith "scope/exactly-once:" then some "K1" else none
+      | none => none
+    let cands := candidates cfg l path
+    let lits := cands.filter fun m => contains cfg m.pre path
+    let hpOnly := l.filter fun m => !m.pre.isEmpty &&
+      (fold cfg (mountedAt m.pre)).isPrefixOf (fold cfg path) && !contains cfg m.pre path
+    let chosen := selectSpec cfg l path
+    let foldOnly := lits.filter fun m => !contains ⟨true, false⟩ m.pre path
+    let tags := [md.base, inTag] ++
+      (if md.custom then ["custom-ctx"] else []) ++ (if md.cs then ["case-sensitive"] else []) ++
       (if cands.length ≥ 2 then ["nt-several-candidates"] else if cands.length == 1 then ["one-candidate"] else ["no-candidate"]) ++
       (if !hpOnly.isEmpty then ["nt-string-prefix-not-boundary"] else []) ++
-      (if (l.filter fun m => !m.pre.isEmpty && m.own.isNone && contains m.pre path).isEmpty then [] else ["nt-unconfigured-on-path"]) ++
+      (if (l.filter fun m => !m.pre.isEmpty && m.own.isNone && contains cfg m.pre path).isEmpty then [] else ["nt-unconfigured-on-path"]) ++
+      (if !foldOnly.isEmpty then ["nt-candidate-by-case-folding"] else []) ++
+      (if (lits.filter fun m => m.pre.head? != some 47).isEmpty then [] else ["nt-candidate-key-without-slash"]) ++
+      (if (lits.filter fun m => m.pre == [47]).isEmpty then [] else ["nt-mount-at-root-candidate"]) ++
+      (if cands.length > lits.length then ["nt-parameterised-candidate"] else []) ++
+      (if inK1 then ["K1-region"] else []) ++
       (match chosen, rootOwn with
         | some o, _ => if o.fails then ["mounted-handler-fails"] else ["mounted-handler"]
         | none, some _ => ["root-handler"]
         | none, none => ["default-handler"])
-    pure { id := id, modelObs := modelObs, implObs := outcomes, spec := spec, tags := tags }
+    pure { id := id, modelObs := modelObs, implObs := outcomes, spec := spec, known := known, tags := tags }
   | _ => throw s!"outside-domain: expected 6 fields, got {f.length}"
 
 def main : IO Unit := run handleCase
